@@ -158,7 +158,8 @@ func c12Run(kind string, ncommon int, limitSpec string, seq []int, reps int) (st
 			o.AllocateCounter("warm", map[string]string{"a": "b"}).ReportCount(1)
 			// (left open on purpose: its goroutines end with the execution)
 		}
-		return m3.NewReporter(m3.Options{HostPorts: []string{s.addr}, Service: "svc", Env: "test", CommonTags: common, Protocol: m3Proto(kind), MaxQueueSize: 1024, MaxPacketSizeBytes: limit})
+		return m3.NewReporter(m3.Options{HostPorts: []string{s.addr}, Service: "svc", Env: "test", CommonTags: common, Protocol: m3Proto(kind), MaxQueueSize: 1024, MaxPacketSizeBytes: limit,
+			IncludeHost: ncommon == 5}) // (the middle configuration also asks for the host tag: one more common tag, found by the reporter itself)
 	}
 	// probe: learn overhead and the largest single metric, so that "each single metric fits on its own" holds
 	var overhead, maxSingle int32
@@ -271,7 +272,7 @@ func c12Run(kind string, ncommon int, limitSpec string, seq []int, reps int) (st
 				// its own") does not hold for this limit, whatever the reporter believed when it accepted it
 				continue
 			}
-			return "datagram-exceeds-max-packet-size", fmt.Sprintf("[%s, %d common tags, MaxPacketSizeBytes=%d (overhead allowance %d, largest single metric %d)] composition %v x%d: datagram %d has %d bytes", kind, ncommon+2, limit, overhead, maxSingle, c12Labels(seq), reps, i, len(dg)), steps
+			return "datagram-exceeds-max-packet-size", fmt.Sprintf("[%s, %d common tags, MaxPacketSizeBytes=%d (overhead allowance %d, largest single metric %d)] composition %v x%d: datagram %d has %d bytes", kind, c12NCommon(ncommon), limit, overhead, maxSingle, c12Labels(seq), reps, i, len(dg)), steps
 		}
 		msg, err := decodeMessage(kind, dg)
 		if err != nil || msg.Left != 0 {
@@ -462,7 +463,7 @@ func c12LemmaJob(tier string) *SeqJob {
 			k := k
 			cl, det := controlledCase(0, func() {
 				rt.SetNow(math.MaxInt64 - 1e15) // timestamps with the longest encoding
-				r, err := m3.NewReporter(m3.Options{HostPorts: []string{s.addr}, Service: "svc", Env: "test", CommonTags: common, Protocol: m3Proto(proto), MaxQueueSize: 4096, MaxPacketSizeBytes: 65000})
+				r, err := m3.NewReporter(m3.Options{HostPorts: []string{s.addr}, Service: "svc", Env: "test", CommonTags: common, Protocol: m3Proto(proto), MaxQueueSize: 4096, MaxPacketSizeBytes: 65000, IncludeHost: ncommon == 5})
 				if err != nil {
 					rcl, rdet = "new-reporter", err.Error()
 					return
@@ -569,7 +570,7 @@ func c12LemmaJob(tier string) *SeqJob {
 			}
 			if allowed := int(overhead) + k*int(charged); len(dgs[0]) > allowed {
 				return "charged-size-below-actual-size", fmt.Sprintf("[%s, %d common tags] %s name %d bytes, %d tags of %d bytes: a batch of %d copies is a %d-byte datagram, the reporter charges %d (envelope allowance) + %d x %d = %d",
-					proto, ncommon+2, kind, nameLen, nTags, tagLen, k, len(dgs[0]), overhead, k, charged, allowed), steps
+					proto, c12NCommon(ncommon), kind, nameLen, nTags, tagLen, k, len(dgs[0]), overhead, k, charged, allowed), steps
 			}
 		}
 		return "", "", steps
@@ -948,4 +949,13 @@ func c12DeadDestinationJob(prop, tier string) *SeqJob {
 		return guard(func() (string, string) { a, b, _ := run(ops[0], df, n, fe); return a, b })
 	}
 	return j
+}
+
+// c12NCommon: the common tags on the wire - the configured ones, service and env, and the host tag in the
+// configuration that asks for it.
+func c12NCommon(ncommon int) int {
+	if ncommon == 5 {
+		return ncommon + 3
+	}
+	return ncommon + 2
 }
